@@ -142,6 +142,9 @@ impl Ty {
             Ty::Tuple(ts) => {
                 if ts.len() == 1 {
                     format!("({},)", ts[0].rust())
+                } else if ts.len() % 2 == 1 {
+                    // rustfmt's multi-line layout ends the list with a comma
+                    format!("({},)", ts.iter().map(|a| a.rust()).collect::<Vec<_>>().join(", "))
                 } else {
                     format!("({})", ts.iter().map(|a| a.rust()).collect::<Vec<_>>().join(", "))
                 }
@@ -586,7 +589,8 @@ pub fn item_src(it: &Item) -> String {
             format!("{ind}#[typeshare]\n")
         }
     } else {
-        format!("{ind}#[typeshare({})]\n", tsargs.join(", "))
+        // rustfmt ends a multi-line argument list with a comma
+        format!("{ind}#[typeshare({}{})]\n", tsargs.join(", "), if it.layout & 32 == 32 { "," } else { "" })
     };
     let mut serde: Vec<String> = vec![];
     let is_const_or_alias = matches!(it.kind, Kind::Alias { .. } | Kind::Const { .. });
